@@ -63,7 +63,7 @@ def prove_lemmas(run, lemmas, both=False):
         for suf, prem, goal in l.obligations():
             name = 'lemma.%s%s' % (l.name, suf)
             # vacuity: the premises (IH instances + revealed definitions) must be satisfiable
-            if prem and satisfiable(prem, 3000) == z3.unsat:
+            if prem and satisfiable(prem, 20000) == z3.unsat:
                 run.failed(name, 'E1/pyvc', 'vacuous', dict(reason='lemma premises are contradictory'),
                            replayed=False, solver_output='premises unsat')
                 ok = False
@@ -122,7 +122,7 @@ def verify_functions(run, contracts, registry, concretes=None, tier='quick', bot
         _PAR.update(contracts=contracts, registry=registry, both=both)
         try:
             ctx = multiprocessing.get_context('fork')
-            with ctx.Pool(min(12, len(contracts))) as pool:
+            with ctx.Pool(min(int(os.environ.get('VERIF_E1_WORKERS', '8')), len(contracts))) as pool:
                 for i, res, err in pool.imap_unordered(_verify_one, range(len(contracts))):
                     results[i] = (res, err)
         except Exception:
